@@ -89,6 +89,16 @@ def import_source(src, workdir, name):
     return importlib.import_module(name)
 
 
+def reset_group_counter():
+    """Groups without an explicit name (the ones AccelerationEval creates
+    internally) are numbered by a process-wide counter and the number ends
+    up in the generated source (profiling labels), i.e. in the cache key of
+    the compiled module.  Restart the numbering before every build so that
+    equal programs give equal sources."""
+    import pysph.sph.equation as E
+    E.group_counter = E._counter()
+
+
 def symbol_table():
     """deps / arrays of every code block of the real precomputed_symbols()."""
     from pysph.sph.equation import precomputed_symbols
@@ -198,7 +208,10 @@ def build_groups(spec, mod):
                 cv=[float(v) for v in at['cv']])
             eq_ids[id(o)] = e['eid']
             eqs.append(o)
-        kw = dict(real=bool(g['real']), update_nnps=bool(g['upd']))
+        # (an explicit name: the default one comes from a global counter and
+        # would change the generated source, hence the cache key, every time)
+        kw = dict(real=bool(g['real']), update_nnps=bool(g['upd']),
+                  name='g%d' % g['gid'])
         kw['start_idx'] = 'stv' if g['sprop'] else g['start']
         if g['pprop']:
             kw['stop_idx'] = 'spv'
@@ -246,6 +259,7 @@ def run_probe(job):
         if key not in compiled:
             # the kernel's attributes travel through **kernel.__dict__
             k = ProbeKernel(dim=key[0], ka=key[1])
+            reset_group_counter()
             groups, _, _ = build_groups(spec, mod)
             ae = AccelerationEval(pas_c, groups, k)
             SPHCompiler(ae, None).compile()
